@@ -275,3 +275,122 @@ Lemma national_quote_refuted : exists p,
   has_char cSQ p = true /\
   tokenize plain_dialect plain_uni true (print_str KNational p) <> LexOk [(TStr KNational p, (1, 1))].
 Proof. exists (s2l "a" ++ [cSQ] ++ s2l "b"). split; [reflexivity|]. vm_compute. discriminate. Qed.
+
+(** * Unicode string literals U&'...' *)
+Ltac Zify.zify_post_hook ::= Z.div_mod_to_equations.
+Lemma hexdigit_of_ok v : v < 16 -> is_hexdigit (hexdigit_of v) = true /\ hexval (hexdigit_of v) = v /\
+  (hexdigit_of v =? cBSL) = false /\ (hexdigit_of v =? cPLUS) = false /\ (hexdigit_of v =? cSQ) = false.
+Proof.
+  intro H. assert (Hc : v = 0 \/ v = 1 \/ v = 2 \/ v = 3 \/ v = 4 \/ v = 5 \/ v = 6 \/ v = 7 \/ v = 8 \/ v = 9 \/
+                        v = 10 \/ v = 11 \/ v = 12 \/ v = 13 \/ v = 14 \/ v = 15) by lia.
+  repeat (destruct Hc as [-> | Hc]; [vm_compute; repeat split; reflexivity|]). subst. vm_compute. repeat split; reflexivity.
+Qed.
+
+(** [hex_digits] on [k] well-formed digits followed by anything *)
+Lemma hex_digits_app : forall ds acc r,
+  Forall (fun c => is_hexdigit c = true) ds ->
+  hex_digits (length ds) acc (ds ++ r) =
+    let v := fold_left (fun a c => a * 16 + hexval c) ds acc in
+    if valid_scalar v then Ok (v, r) else Err (EInvalidUnicode v) r.
+Proof.
+  induction ds as [|c ds IH]; intros acc r H; cbn [length hex_digits app fold_left]; [reflexivity|].
+  inversion H; subst. rewrite H2. apply IH. assumption.
+Qed.
+
+Lemma hex4_value c : c <= 65535 ->
+  Forall (fun x => is_hexdigit x = true) (hex4 c) /\
+  fold_left (fun a x => a * 16 + hexval x) (hex4 c) 0 = c /\ length (hex4 c) = 4%nat.
+Proof.
+  intro H. unfold hex4.
+  assert (H3 : c / 4096 mod 16 < 16) by (apply N.mod_lt; lia).
+  assert (H2 : c / 256 mod 16 < 16) by (apply N.mod_lt; lia).
+  assert (H1 : c / 16 mod 16 < 16) by (apply N.mod_lt; lia).
+  assert (H0 : c mod 16 < 16) by (apply N.mod_lt; lia).
+  destruct (hexdigit_of_ok _ H3) as (A3 & B3 & _), (hexdigit_of_ok _ H2) as (A2 & B2 & _),
+           (hexdigit_of_ok _ H1) as (A1 & B1 & _), (hexdigit_of_ok _ H0) as (A0 & B0 & _).
+  split; [repeat constructor; assumption|]. split; [|reflexivity].
+  cbn [fold_left]. rewrite B3, B2, B1, B0. lia.
+Qed.
+
+Lemma hex6_value c : c <= 16777215 ->
+  Forall (fun x => is_hexdigit x = true) (hex6 c) /\
+  fold_left (fun a x => a * 16 + hexval x) (hex6 c) 0 = c /\ length (hex6 c) = 6%nat.
+Proof.
+  intro H. unfold hex6.
+  assert (H5 : c / 1048576 mod 16 < 16) by (apply N.mod_lt; lia).
+  assert (H4 : c / 65536 mod 16 < 16) by (apply N.mod_lt; lia).
+  assert (Hm : c mod 65536 <= 65535) by (pose proof (N.mod_lt c 65536); lia).
+  destruct (hexdigit_of_ok _ H5) as (A5 & B5 & _), (hexdigit_of_ok _ H4) as (A4 & B4 & _).
+  destruct (hex4_value _ Hm) as (F & V & L).
+  split; [constructor; [assumption|constructor; [assumption|exact F]]|]. split.
+  - cbn [app fold_left]. rewrite B5, B4.
+    assert (G : forall l a, fold_left (fun a x => a * 16 + hexval x) l a =
+                            a * 16 ^ N.of_nat (length l) + fold_left (fun a x => a * 16 + hexval x) l 0).
+    { induction l as [|x l IH]; intro a; cbn [fold_left length]; [cbn; lia|].
+      rewrite IH, (IH (0 * 16 + hexval x)). rewrite Nat2N.inj_succ, N.pow_succ_r'. lia. }
+    rewrite G, V, L. change (16 ^ N.of_nat 4) with 65536. lia.
+  - cbn [app length]. rewrite L. reflexivity.
+Qed.
+
+Lemma hex4_head c : c <= 65535 -> exists h t, hex4 c = h :: t /\ (h =? cBSL) = false /\ (h =? cPLUS) = false.
+Proof. intro H. unfold hex4. eexists _, _. split; [reflexivity|].
+  assert (H3 : c / 4096 mod 16 < 16) by (apply N.mod_lt; lia).
+  destruct (hexdigit_of_ok _ H3) as (_ & _ & A & B & _). auto. Qed.
+
+(** U&'...' round trip at scanner level *)
+Theorem uni_roundtrip : forall p fuel rest,
+  Forall (fun c => valid_scalar c = true) p -> starts_with_c cSQ rest = false ->
+  (length (escape_unicode p ++ cSQ :: rest) < fuel)%nat ->
+  uni_loop fuel (escape_unicode p ++ cSQ :: rest) = Ok (p, rest).
+Proof.
+  induction p as [|c p IH]; intros fuel rest Hv Hrest Hf.
+  - cbn [escape_unicode flat_map app] in *. destruct fuel as [|f]; [cbn in Hf; lia|].
+    cbn [uni_loop]. rewrite ?N.eqb_refl. destruct rest as [|c2 r2]; [reflexivity|].
+    cbn [starts_with_c] in Hrest. rewrite Hrest. reflexivity.
+  - inversion Hv as [|x l Hc Hp]; subst. unfold escape_unicode in *. cbn [flat_map] in *. rewrite <- app_assoc in *.
+    destruct fuel as [|f]; [cbn in Hf; lia|].
+    unfold uni_char in *.
+    destruct (c =? cSQ) eqn:E1.
+    { apply N.eqb_eq in E1. subst c. cbn [app] in *. cbn [uni_loop]. rewrite ?N.eqb_refl. cbn [length] in Hf.
+      rewrite ?N.eqb_refl. rewrite IH; [reflexivity|assumption|assumption|lia]. }
+    destruct (c =? cBSL) eqn:E2.
+    { apply N.eqb_eq in E2. subst c. cbn [app] in *. cbn [uni_loop]. change (cBSL =? cSQ) with false. cbv iota.
+      rewrite ?N.eqb_refl. cbn [length] in Hf. rewrite IH; [reflexivity|assumption|assumption|lia]. }
+    destruct (c <? 128) eqn:E3.
+    { cbn [app] in *. cbn [uni_loop]. rewrite E1, E2. cbn [length] in Hf.
+      rewrite IH; [reflexivity|assumption|assumption|lia]. }
+    destruct (c <=? 65535) eqn:E4.
+    { apply N.leb_le in E4. cbn [app] in *. cbn [uni_loop]. change (cBSL =? cSQ) with false. cbv iota.
+      rewrite ?N.eqb_refl. destruct (hex4_head c E4) as (h & t & Hh & Hb & Hpl).
+      destruct (hex4_value c E4) as (F & V & L).
+      rewrite Hh in *. cbn [app]. rewrite Hb, Hpl.
+      change (h :: t ++ flat_map _ p ++ cSQ :: rest) with ((h :: t) ++ flat_map
+        (fun c0 : N => if c0 =? cSQ then [cSQ; cSQ] else if c0 =? cBSL then [cBSL; cBSL] else if c0 <? 128 then [c0]
+                        else if c0 <=? 65535 then cBSL :: hex4 c0 else cBSL :: cPLUS :: hex6 c0) p ++ cSQ :: rest).
+      replace 4%nat with (length (h :: t)) by exact L.
+      rewrite hex_digits_app by exact F. cbv zeta. rewrite V, Hc.
+      rewrite IH; [reflexivity|assumption|assumption|]. cbn [length app] in Hf. rewrite app_length in Hf. cbn [length] in L. lia. }
+    { apply N.leb_gt in E4. unfold valid_scalar in Hc.
+      assert (Hle : c <= 16777215).
+      { destruct (c <? 55296) eqn:Ea; [apply N.ltb_lt in Ea; lia|]. cbn [orb] in Hc.
+        apply andb_true_iff in Hc as [_ Hc]. apply N.leb_le in Hc. lia. }
+      cbn [app] in *. cbn [uni_loop]. change (cBSL =? cSQ) with false. cbv iota.
+      rewrite ?N.eqb_refl. change (cPLUS =? cBSL) with false. cbv iota. rewrite ?N.eqb_refl.
+      destruct (hex6_value c Hle) as (F & V & L).
+      replace 6%nat with (length (hex6 c)) by exact L.
+      rewrite hex_digits_app by exact F. cbv zeta. rewrite V.
+      assert (Hc' : valid_scalar c = true) by (inversion Hv; assumption). rewrite Hc'.
+      rewrite IH; [reflexivity|assumption|assumption|]. cbn [length] in Hf. rewrite app_length in Hf. lia. }
+Qed.
+
+(** token level, dialects with Unicode string literals *)
+Theorem unicode_one_token d u p : d_unicode_lit d = true ->
+  Forall (fun c => valid_scalar c = true) p ->
+  tokenize d u true (print_str KUnicode p) = LexOk [(TStr KUnicode p, (1, 1))].
+Proof.
+  intros Hd Hv. apply tokenize_single; [discriminate|]. unfold print_str.
+  unfold next_token.
+  cbv beta iota delta [N.eqb Pos.eqb andb orb negb cSP cTAB cLF cCR cSQ cDQ cAMP peek_is tl].
+  rewrite Hd. cbv beta iota delta [andb]. fold cSQ.
+  rewrite uni_roundtrip; [reflexivity|exact Hv|reflexivity|cbn [length]; lia].
+Qed.
